@@ -1,12 +1,12 @@
 (* C14 -- the boolean checker of Corr/C14.v decides the property on an observation:
    [check c = []] exactly when every observed reply satisfies what the property
-   demands of its request ([sat_reply] against [spec]). *)
+   demands of its request ([sat_reply] against [fixed_reply]). *)
 From Coq Require Import List String ZArith Bool Lia.
 Import ListNotations.
 From Onet Require Import Api.Rest Api.RestConc Corr.C14.
 
 Definition sat (clients : list ckind) (cr : creq) (o : reply) : Prop :=
-  sat_reply (is_ws cr) (spec c14_world clients cr) o = true.
+  sat_reply (is_ws cr) (fixed_reply c14_world clients cr) o = true.
 
 Definition observation_ok (clients : list ckind) (rounds : list (list creq)) (obs : list (list reply)) : Prop :=
   Forall2 (Forall2 (sat clients)) rounds obs.
@@ -60,12 +60,12 @@ Proof. unfold check. rewrite dedup_nil. apply check_rounds_nil. Qed.
    is the library's, and a reason longer than a close frame is not sent at all) *)
 Theorem sat_meaning clients cr o :
   sat clients cr o <->
-  let s := spec c14_world clients cr in
+  let s := fixed_reply c14_world clients cr in
   reply_eqb s o = true \/
   (is_ws cr = true /\ is_err s = true /\ exists t', o = RErr EAbnormal t').
 Proof.
   unfold sat, sat_reply. cbv zeta.
-  set (s := spec c14_world clients cr). split.
+  set (s := fixed_reply c14_world clients cr). split.
   - intro H. apply orb_true_iff in H as [H|H]; [now left|].
     right. apply andb_true_iff in H as [H1 H2]. apply andb_true_iff in H1 as [H0 H1].
     destruct o as [tg m|c' t']; [discriminate|]. destruct c'; try discriminate. eauto.
